@@ -17,7 +17,7 @@ META = {
                    "after + / -, constant = product K_i^n_i. eliminate/cancel are executed on coefficient values concretised by solver "
                    "forks (bounded exhaustive |coefficients| <= 6); as_reactions: kb = kf/(K*c0^dnu) on reals",
     "bounds": {"quick": "operand shapes from a list of 7 (incl. species on both sides of an operand) in all ordered pairs, multipliers -3..3, "
-                        "coefficients 1..3; chains of 3 operations for 12 shape triples; eliminate: coefficients -6..6 without 0",
+                        "coefficients 1..3; chains of 3 operations for 12 shape triples; eliminate: coefficients -40..40 without 0 (thorough -64..64)",
                "thorough": "all ordered pairs + 60 triples; chains of length 4"},
     "assumptions": [
         "stubs: chempy.chemistry.int -> identity on integer symbols; the constant is a value type supporting exactly ** and * (exponent "
@@ -306,12 +306,14 @@ sys.exit(0 if (c[0] != 0 and c[1] != 0 and tot == 0 and all(int(x) == x for x in
 '''
 
 
-def task_eliminate(maxc):
+def task_eliminate(maxc, signs=None):
     from chempy import Equilibrium
 
     a, b = Int("a"), Int("b")
     sa, sb = Int("sa"), Int("sb")
     assum = [a.t >= 1, a.t <= maxc, b.t >= 1, b.t <= maxc, z3.Or(sa.t == -1, sa.t == 1), z3.Or(sb.t == -1, sb.t == 1)]
+    if signs is not None:   # one task per side pattern (parallelism only)
+        assum += [sa.t == signs[0], sb.t == signs[1]]
 
     def fn():
         av, bv = fork_int(a, 1, maxc), fork_int(b, 1, maxc)
@@ -349,7 +351,7 @@ def task_eliminate(maxc):
         ok = ok and abs(can) == best and can in cands and can3 == 0
         return bool(ok) if not twin else False
 
-    o = explore_and_prove(fn, assum, goal, max_paths=5000)
+    o = explore_and_prove(fn, assum, goal, max_paths=20000, deadline_s=1500)
     res = dict(engine="Z", functions=[env.describe(Equilibrium.eliminate), env.describe(Equilibrium.cancel)], obligations=o.obligations,
                discharged=o.discharged, violations=[], inconclusive=list(o.inconclusive), queries=o.queries, paths=o.paths, solver_s=o.solver_s,
                twin="violated" if o.paths > 1 else "passed", bounds="coefficients of the shared species 1..%d on either side (solver-forked values)" % maxc,
@@ -496,7 +498,10 @@ def tasks(tier, seed):
         ts.append(dict(id="C11.%s.n*e1+m*e2" % kind, fn="task_arith", kwargs=dict(form="n*e1+m*e2", shape_sets=pairs[2::12], kind=kind), timeout=900))
     ts.append(dict(id="C11.scale_twice", fn="task_arith", kwargs=dict(form="n*e1;m*e1", shape_sets=[[s_] for s_ in names]), timeout=900))
     ts.append(dict(id="C11.reparam", fn="task_arith", kwargs=dict(form="-e1;reparam;e2-e1", shape_sets=pairs[:: (6 if tier == "quick" else 1)]), timeout=900))
-    ts.append(dict(id="C11.eliminate_cancel", fn="task_eliminate", kwargs=dict(maxc=6 if tier == "quick" else 9), timeout=900))
+    for s1_ in (-1, 1):
+        for s2_ in (-1, 1):
+            ts.append(dict(id="C11.eliminate_cancel.%s%s" % ("m" if s1_ < 0 else "p", "m" if s2_ < 0 else "p"), fn="task_eliminate",
+                           kwargs=dict(maxc=40 if tier == "quick" else 64, signs=(s1_, s2_)), timeout=3000))
     ts.append(dict(id="C11.as_reactions", fn="task_as_reactions", kwargs={}, timeout=120))
     ts.append(dict(id="C11.int_constant", fn="task_int_constant", kwargs={}, timeout=300))
     return ts
